@@ -79,6 +79,27 @@ type ParserBase struct {
 
 	// EqToIs treats Eq as Is for queries
 	EqToIs bool
+
+	// nest is the current nesting of expressions, statements and constants
+	nest int
+}
+
+// maxNest limits the nesting of expressions, statements, and constants
+// so that absurdly nested input gets a syntax error
+// instead of exhausting the stack, which Go cannot recover from.
+const maxNest = 5000
+
+// NestIn is called on entry to the recursive parts of the grammar
+func (p *ParserBase) NestIn() {
+	p.nest++
+	if p.nest > maxNest {
+		p.Error("nesting too deep")
+	}
+}
+
+// NestOut is called on exit from the recursive parts of the grammar
+func (p *ParserBase) NestOut() {
+	p.nest--
 }
 
 type Parser struct {
